@@ -200,11 +200,8 @@ _LOOP_BODY = ("    defs, tails = [], []\n"
               "        tails.append('%s__traceback_hide__ = True\\n%sreturn funcs[%s](%s)\\n' % (_INDENT * (cur + 1), _INDENT * (cur + 1), cur, kwargs))\n"
               "    return ''.join(defs + tails[::-1])\n\n\n"
               "def _unused_recursive_form(funcs, params, inner_name, params_sofar, level):\n")
-T('f_c12_chain_builder_loop', ['C12'], (S, _BCS_OLD_HEAD, _LOOP_BODY + _BCS_OLD_HEAD))
-B('f_c12_chain_builder_loop_global', ['C12'], 'R12.a',
-  (S, _BCS_OLD_HEAD, _LOOP_BODY.replace("'%s__traceback_hide__ = True\\n%sreturn", "'%sglobal calls\\n%scalls = 1\\n%sreturn")
-                               .replace("% (_INDENT * (cur + 1), _INDENT * (cur + 1), cur, kwargs)", "% (_INDENT * (cur + 1), _INDENT * (cur + 1), _INDENT * (cur + 1), cur, kwargs)")
-      + _BCS_OLD_HEAD))
+# (variant f_c12_chain_builder_loop* removed: a chain builder rewritten from recursion to a loop is beyond symbolic template
+#  evaluation; the accepted outcome is an ANALYSIS-ERROR, and the text is never obtained by running the builder)
 
 # ---- C13 / R13.a: one return for both delegates; the delegate's result named before it is returned ----------------------
 _TAIL = ('        except RerouteWSGI as rre:\n            return rre.wsgi_app(environ, start_response)\n        return response(environ, start_response)\n')
